@@ -153,7 +153,7 @@ def color_chunk(args):
 def ann_docs(rng, n):
     """small documents with token annotations nested up to depth 3 and non-token annotations inside / outside them"""
     leaves = [('t', 'a'), ('t', 'b '), ('line',), ('hl',), ('t', 'cc')]
-    anns = [('tok', 5), ('tok', 7), ('tok', 12), ('tok', 13), ('oth', 1), ('cmt', 'x y')]
+    anns = [('tok', 5), ('tok', 7), ('tok', 12), ('tok', 13), ('oth', 1), ('cmt', 'x y')] + [('raw', i) for i in range(len(DOCS.RAW_ANNS))]
     out = []
 
     def go(depth):
@@ -194,7 +194,7 @@ def color_section(tier, seed):
     # every nesting of three annotations (token / non-token / comment in any order) with text before and after each level:
     # after an inner annotation ends, the text that follows must be back in the style of the enclosing *token*, however many
     # non-token annotations lie in between
-    anns3 = [('tok', 5), ('tok', 12), ('oth', 1), ('cmt', 'x y')]
+    anns3 = [('tok', 5), ('tok', 12), ('oth', 1), ('cmt', 'x y'), ('raw', 0), ('raw', 4)]
     for a in anns3:
         for b in anns3:
             for c in anns3:
